@@ -207,10 +207,12 @@ def run(chk, scratch):
             for st in ("none", "all", "default_ont"):
                 jobs.append((chk.seed * 100 + si, "rich", st, "nanopore", True))
             jobs.append((chk.seed * 100 + si, "event", "default_ont", "nanopore", False))
+            jobs.append((chk.seed * 100 + si, "event", ("default_ont/--delta 0", "all/--delta 2", "default_pacbio/--delta 0")[si % 3], "nanopore", True))
     else:
         for k, st in enumerate(strategies):
             jobs.append((chk.seed * 100, "event", st, ("nanopore", "pacbio_ccs")[k % 2], True))
         jobs.append((chk.seed * 100 + 1, "rich", "all", "nanopore", True))
+        jobs.append((chk.seed * 100, "event", "default_ont/--delta 0", "nanopore", True))
         jobs.append((chk.seed * 100, "event", "default_ont", "nanopore", False))
     worlds = {}
     for key in sorted(set((j[0], j[1]) for j in jobs)):
@@ -231,11 +233,13 @@ def run(chk, scratch):
     def one(job):
         seed, kind, st, dt, annotated = job
         d, w = worlds[(seed, kind)]
-        out = os.path.join(d, "out_%s_%s_%s" % (st, dt, annotated))
-        extra = ["--splice_correction_strategy", st, "--no_model_construction"]
+        out = os.path.join(d, "out_%s_%s_%s" % (st.replace("/", "_").replace(" ", ""), dt, annotated))
+        extra = ["--splice_correction_strategy", st.split("/")[0], "--no_model_construction"]
+        if "--delta" in st:
+            extra += ["--delta", st.split("--delta ")[1]]          # explicit tolerance (0 = junctions may not move at all)
         if not annotated:
             extra += ["--illumina_bam", os.path.join(d, "short.bam")]
-        r = pipeline.run(d, out, data_type=dt, threads=1 + len(st) % 2, annotated=annotated, home=out + "_home", extra=extra)
+        r = pipeline.run(d, out, data_type=dt, threads=1 + len(st.split("/")[0]) % 2, annotated=annotated, home=out + "_home", extra=extra)
         return job, out, r
     judged = 0
     changed_total = 0
@@ -255,7 +259,7 @@ def run(chk, scratch):
         fai = parse.read_fai(os.path.join(d, "g.fa.fai"))
         inp = bam_exons(os.path.join(d, "r.bam"))
         truth = {rd.name: rd.truth for rd in w.reads}
-        flags = STRATEGY_FLAGS[st]
+        flags = STRATEGY_FLAGS[st.split("/")[0]]
         # annotation
         iso_introns = {}
         ann_introns = defaultdict(list)
@@ -272,7 +276,7 @@ def run(chk, scratch):
             for t in w.all_transcripts():
                 for i in t.introns:
                     short_introns[t.chrom].add(i)
-        delta = {"nanopore": 6, "pacbio_ccs": 4, "assembly": 4}[dt]
+        delta = int(st.split("--delta ")[1]) if "--delta" in st else {"nanopore": 6, "pacbio_ccs": 4, "assembly": 4}[dt]
         for b in o.bed():
             judged += 1
             chk.note()
@@ -351,8 +355,15 @@ def run(chk, scratch):
                         if abs(ai[0] - ri[0]) <= delta and abs(ai[1] - ri[1]) <= delta:
                             allowed_l.add(ai[0])
                             allowed_r.add(ai[1])
-                for iso in isoforms:
-                    for ii in iso_introns.get(iso, ()):
+                # introns of an assigned isoform are inserted / restored only by an event-driven correction the strategy enables
+                for a in recs:
+                    evs = [ev.split(":")[0] for ev in a.events.replace(",", "+").split("+")]
+                    inserting = (flags[1] and "intron_shift" in evs) or (flags[2] and "exon_misalignment" in evs) or \
+                                (flags[3] and any(e.startswith("terminal_exon_misalignment") for e in evs)) or \
+                                (flags[5] and "fake_micro_intron_retention" in evs)
+                    if not inserting:
+                        continue
+                    for ii in iso_introns.get(a.isoform, ()):
                         allowed_l.add(ii[0])
                         allowed_r.add(ii[1])
             else:
